@@ -58,6 +58,10 @@ def shapes(tier):
         out.append({"family": "partition", "N": N, "n_batches": 2, "src": "idx", "pool": 1})
     out.append({"family": "history", "N": 2})
     out.append({"family": "history", "N": 3})
+    # equal seeds, different forms of the same library (file name / JokerSamples object / in memory) and different batching
+    for N, k, rnd in ((2, None, False), (3, 2, True), (3, 2, False), (3, None, True)):
+        out.append({"family": "forms", "N": N, "n_prior": k, "randomize": rnd})
+    out.append({"family": "forms", "N": 3, "n_prior": None, "randomize": False, "n_lin": 2})
     # helpers pickled to worker processes: (class, (data, prior, trend_M)) with the data themselves pickled
     for tref in ("default", "explicit", "false"):
         out.append({"family": "pickle", "nt": 2, "poly": 2, "noff": 0, "K": "default", "units": "plain", "P_unit": "day", "tref": tref, "rows": 1})
@@ -357,11 +361,65 @@ def _run_history(shape, res, sink):
     return ex
 
 
+def _run_forms(shape, res, sink):
+    """the same library and the same seed (= the same stream symbols) through every form the API accepts: what is requested
+    from the generator and the accepted rows must coincide (in-memory only where the file-path options are neutral)"""
+    S = groupa.Setup(with_api=True)
+    N, k, rnd = shape["N"], shape["n_prior"], shape["randomize"]
+    forms = [("filename", False, 1), ("object", False, 2), ("filename", False, N + 1)]
+    if k is None and not rnd:
+        forms.append(("object", True, None))
+
+    def harness():
+        S.reset()
+        lib, lnp = S.library(N, with_lnp=True)
+        data = types.SimpleNamespace(t_ref=units.Time(core.real("t_ref")))
+        outs = []
+        for src_kind, inmem, nb in forms:
+            S.w.streams.clear()
+            del S.w.log[:]
+            rng = env.SymRng(S.w)                      # same key, position 0: the same seed
+            pool = env.Pool(S.w, size=1 if nb != 2 else 3, order="reversed")
+            joker = S.st.thejoker.TheJoker(S.JokerPrior(S), pool=pool, rng=rng)
+            src = S.as_file(lib, lnp) if src_kind == "filename" else S.as_samples(lib, lnp)
+            o = joker.rejection_sample(data, src, n_prior_samples=k, n_linear_samples=shape.get("n_lin", 1), n_batches=nb, randomize_prior_order=rnd, in_memory=inmem)
+            req = [(d[0], d[1], d[2]) if d[0] == "choice" else (d[0],) for d in S.w.streams.get(("root",), []) if d[0] in ("choice", "uniform")]
+            outs.append((src_kind, inmem, nb, req, groupa.observe_samples(o)))
+        return lib, outs
+    ex = core.Explorer(max_paths=3000)
+    twin = False
+    for path in ex.paths(harness):
+        core.Ctx.cur = path.ctx
+        try:
+            r, _, _ = path.check(core.SB(z3.BoolVal(False)))
+            twin = twin or r == "sat"
+            if path.raised is not None:
+                sink.check(path, "forms.no_exception", core.SB(z3.BoolVal(False)), site="forms", describe=lambda m: {"raised": repr(path.raised)[:300]})
+                continue
+            lib, outs = path.result
+            ref = outs[0]
+
+            def desc(m):
+                return {"forms": [[o[0], o[1], o[2]] for o in outs], "requests": [[list(map(str, q)) for q in o[3]] for o in outs]}
+            for o in outs[1:]:
+                tag = "%s%s,n_batches=%s" % (o[0], ",in_memory" if o[1] else "", o[2])
+                sink.check(path, "forms.same_draw_requests", core.SB(z3.BoolVal(o[3] == ref[3])), site="forms|" + tag, describe=desc)
+                a, b = ref[4], o[4]
+                ok = not a.get("not_samples") and not b.get("not_samples") and a.get("n") == b.get("n")
+                cl = z3.And([L(x) == L(y) for ra, rb in zip(a["rows"], b["rows"]) for x, y in zip(ra, rb)]) if ok and a["n"] else z3.BoolVal(bool(ok))
+                sink.check(path, "forms.same_accepted_rows", core.SB(cl), site="forms|" + tag, describe=desc)
+        finally:
+            core.Ctx.cur = None
+    res["twin_ok"] = twin
+    res["witnesses"].append({"vc": "witness", "site": "forms", "shape": shape, "model": {"forms": True}, "witness": True})
+    return ex
+
+
 def run_shape(shape, tier):
     res = new_result(shape)
     sink = VCSink(res, PROPERTY)
     fam = shape["family"]
-    ex = {"junk": _run_junk, "partition": _run_partition, "history": _run_history, "pickle": _run_pickle}[fam](shape, res, sink)
+    ex = {"junk": _run_junk, "partition": _run_partition, "history": _run_history, "pickle": _run_pickle, "forms": _run_forms}[fam](shape, res, sink)
     fill_explorer(res, ex)
     return res
 
@@ -421,6 +479,27 @@ def replay(cand):
                 got = np.asarray(jm.marginal_ln_likelihood(data, fn, n_batches=4))
                 if not np.allclose(got, ref, rtol=1e-11, atol=0):
                     bad.append("MultiPool(2), n_batches=4 differs from the serial in-memory values")
+        # equal seeds through the file-name and the object form, with a random subset of the library
+        for kk, rr in ((9, True), (9, False), (None, True)):
+            ja = tj.TheJoker(prior, rng=np.random.default_rng(31)).rejection_sample(data, fn, n_prior_samples=kk, randomize_prior_order=rr)
+            jb = tj.TheJoker(prior, rng=np.random.default_rng(31)).rejection_sample(data, lib, n_prior_samples=kk, randomize_prior_order=rr)
+            jc = tj.TheJoker(prior, rng=np.random.default_rng(31)).rejection_sample(data, fn, n_prior_samples=kk, randomize_prior_order=rr, n_batches=5)
+            jd = tj.TheJoker(prior, rng=np.random.default_rng(31)).rejection_sample(data, fn, n_prior_samples=kk, randomize_prior_order=rr, n_batches=3, n_linear_samples=2)
+            if len(jd) != 2 * len(ja) or not np.array_equal(jd["P"].value[::2], ja["P"].value):
+                bad.append("equal seeds, n_linear_samples=2 with n_batches=3: accepted rows differ from the single-draw run")
+            for tag, other in (("JokerSamples object", jb), ("file name, n_batches=5", jc)):
+                if len(ja) != len(other) or not np.array_equal(ja["P"].value, other["P"].value):
+                    bad.append("equal seeds, n_prior_samples=%r, randomize_prior_order=%r: accepted set via the file name differs from %s" % (kk, rr, tag))
+        # several linear draws per accepted sample: one batch vs several batches (nonlinear rows must coincide)
+        wide = prior.sample(size=120, rng=np.random.default_rng(12))
+        weak = tj.RVData(t, data.rv, np.full(len(t), 25.0) * u.km / u.s)          # weak data: many acceptances, several per batch
+        one = tj.TheJoker(prior, rng=np.random.default_rng(8)).rejection_sample(weak, wide, n_linear_samples=3, n_batches=1)
+        if len(one) < 3 * 8:
+            bad.append("scenario too weak: only %d rows accepted" % len(one))
+        for nb_ in (2, 4, 7):
+            many = tj.TheJoker(prior, rng=np.random.default_rng(8)).rejection_sample(weak, wide, n_linear_samples=3, n_batches=nb_)
+            if len(one) != len(many) or not np.array_equal(one["P"].value, many["P"].value) or not np.array_equal(one["e"].value, many["e"].value):
+                bad.append("n_linear_samples=3: n_batches=%d returns other nonlinear rows than n_batches=1 (%d vs %d rows)" % (nb_, len(many), len(one)))
         # helpers pickled to workers: every reference-epoch convention of the data (default, explicit, disabled)
         import pickle
         from astropy.time import Time
